@@ -248,7 +248,7 @@ fn run_cont(a: &Args, limits: &Limits, symbolic: bool, initial: &[(String, i64)]
         case.remove("inputs");
         let (rep, desc) = match kind.as_str() {
             "fringe" => {
-                let ops = cont::fringe_ops(seed, a.num("len", 6) as usize, a.num("states", 2) as u8, a.num("depths", 2) as usize);
+                let ops = if a.num("fill", 0) > 0 { cont::fringe_fill_ops(seed, a.num("fill", 0) as usize, a.num("states", 3) as u8, a.num("depths", 2) as usize) } else { cont::fringe_ops(seed, a.num("len", 6) as usize, a.num("states", 2) as u8, a.num("depths", 2) as usize) };
                 let nodup = a.get("fringe", "nodup") == "nodup";
                 (explore(limits, seed, symbolic, initial, &mut || cont::fringe_body(nodup, &ops)), format!("{:?}", ops))
             }
@@ -303,7 +303,7 @@ fn main() {
                 for cache in a.list("cache", "0").iter() {
                     for dom in a.list("dom", "full").iter() {
                         for w in a.list("width", "2").iter() {
-                            let c = knap::KnapCase { n: a.num("n", 4) as usize, seed: a.num("seed", 1), nsym: a.num("nsym", 4) as usize, cache: cache == "1", nodup: a.get("fringe", "simple") == "nodup", width: w.parse().unwrap(), dom: dom.clone(), props: a.list("props", "C10") };
+                            let c = knap::KnapCase { n: a.num("n", 4) as usize, seed: a.num("seed", 1), nsym: a.num("nsym", 4) as usize, cache: cache == "1", nodup: a.get("fringe", "simple") == "nodup", width: w.parse().unwrap(), dom: dom.clone(), props: a.list("props", "C10"), copies: a.num("copies", 1) as u8 };
                             macro_rules! go {
                                 ($d:ty) => {
                                     if c.cache {
